@@ -107,6 +107,8 @@ def add_special(rng, spec, backend, D):
 def gen_case(rng, simrun, backend):
     fock = backend == "fock"
     n = int(rng.integers(2, 4)) if fock else int(rng.integers(2, 6))
+    if fock and rng.random() < 0.3:
+        return gen_wide_fock_case(rng, simrun)
     allow = {"fock": simrun.FOCK_OK - {"Interferometer", "GaussianTransform", "Gaussian"},
              "gaussian": simrun.GAUSSIAN_OK - {"Gaussian"},
              "bosonic": simrun.BOSONIC_OK - {"Gaussian"}}[backend]
@@ -121,6 +123,42 @@ def gen_case(rng, simrun, backend):
     return {"spec": spec, "hbar": float(rng.choice([2.0, 2.0, 0.7])), "backend": backend, "cutoff": D}
 
 
+def gen_wide_fock_case(rng, simrun):
+    """Fock registers of 4-5 modes at a low cutoff (weak states): gates-only entangling prefix, so that the register is still a
+    ket when the probes (preparations on every position, gates, loss, a measurement) arrive - three or more spectators."""
+    n = int(rng.integers(4, 6))
+    D = 5 if n == 4 else 4
+    cmds = []
+    for m in range(n):
+        cmds.append({"op": "Dgate", "p": [float(rng.uniform(0.05, 0.2)), float(rng.uniform(0, 6.28))], "m": [m], "dag": False})
+        if rng.random() < 0.5:
+            cmds.append({"op": "Sgate", "p": [float(rng.uniform(-0.1, 0.1)), float(rng.uniform(0, 6.28))], "m": [m], "dag": False})
+    for _ in range(n):
+        a, b = (int(x) for x in rng.choice(n, 2, replace=False))
+        cmds.append({"op": "BSgate", "p": [float(rng.uniform(0.3, 1.2)), float(rng.uniform(0, 6.28))], "m": [a, b], "dag": False})
+    for _ in range(int(rng.integers(2, 6))):
+        k = str(rng.choice(["Fock", "Coherent", "Vacuum", "Ket", "Rgate", "BSgate", "LossChannel", "Squeezed"]))
+        m = int(rng.integers(n))
+        if k == "Fock":
+            cmds.append({"op": k, "p": [int(rng.integers(0, 2))], "m": [m], "dag": False})
+        elif k == "Coherent":
+            cmds.append({"op": k, "p": [float(rng.uniform(0.05, 0.2)), float(rng.uniform(0, 6.28))], "m": [m], "dag": False})
+        elif k == "Squeezed":
+            cmds.append({"op": k, "p": [float(rng.uniform(-0.1, 0.1)), float(rng.uniform(0, 6.28))], "m": [m], "dag": False})
+        elif k == "Vacuum":
+            cmds.append({"op": k, "p": [], "m": [m], "dag": False})
+        elif k == "Ket":
+            cmds.append({"op": k, "p": [enc(random_ket(rng, 1, D, 1))], "m": [m], "dag": False})
+        elif k == "Rgate":
+            cmds.append({"op": k, "p": [float(rng.uniform(-3, 3))], "m": [m], "dag": False})
+        elif k == "LossChannel":
+            cmds.append({"op": k, "p": [float(rng.uniform(0.4, 1.0))], "m": [m], "dag": False})
+        else:
+            a, b = (int(x) for x in rng.choice(n, 2, replace=False))
+            cmds.append({"op": "BSgate", "p": [float(rng.uniform(0.3, 1.2)), float(rng.uniform(0, 6.28))], "m": [a, b], "dag": False})
+    return {"spec": {"n": n, "cmds": cmds}, "hbar": 2.0, "backend": "fock", "cutoff": D, "wide": True}
+
+
 def run_case(case, rep, env):
     simrun, sfutil, runner = env
     import strawberryfields as sf
@@ -132,6 +170,9 @@ def run_case(case, rep, env):
         if backend == "fock":
             confs = [{"backend": "fock", "cutoff_dim": case["cutoff"], "pure": True},
                      {"backend": "fock", "cutoff_dim": case["cutoff"], "pure": False}]
+            if case.get("wide"):
+                rep.observe("fock-register-of-%d-modes" % spec["n"])
+                confs = confs[:1] if spec["n"] == 5 else confs  # (5 modes mixed at cutoff 4: 4^10 entries per snapshot, pure only)
         case.pop("_nt", None)
         for conf in confs:
             prog = sfutil.build_program(spec["n"], spec["cmds"])
